@@ -149,6 +149,7 @@ Definition lit_tf_methods : list (string * list string) :=
   ("__getitem__",
     [ "def(self, key)";
       "if isinstance(key, list):
+    key = tf.constant(key, dtype=tf.int32)
     tensor = tf.gather(self.tensor, key)
     mask = tf.gather(self.mask, key)
 else:
